@@ -32,6 +32,7 @@ fixed("C17","C17/nsec3-cover/normal/inside-or-outside/lower-case-next-hash","92c
 # ---- C18
 fixed("C18","C18/sign-fails/compressible/ED25519","b50b305","SIG(0) Sign returned ErrBuf whenever compression saved more octets than the SIG record needs: its buffer was sized from the compressed length but PackBuffer needs the uncompressed one")
 fixed("C18","C18/own-signature-rejected/additional-254..512/ED25519","a2f04f8","SIG(0) Verify hashed byte((adc-1)<<8) (always 0) instead of the high octet of the original ARCOUNT, so messages with 256+ additional records signed by Sign did not verify")
+fixed("C18","C18/reused-sig/sign-output-invalid/ED25519","dd215bf","SIG.Sign called again on a SIG value that already carries a signature (one SIG template per key) packed and hashed the old signature as RDATA and appended the new one after it: every message after the first did not verify")
 # ---- C20
 known("C20","C20/not-reflexive/OPT","OPT.isDuplicate is hard-wired to false: an OPT record is never a duplicate of itself or of its copy")
 known("C20","C20/not-reflexive/XPRIV","PrivateRR.isDuplicate is hard-wired to false: a user-registered private record is never a duplicate of itself or of its copy")
